@@ -9,6 +9,22 @@ def gen_data(rng, kind, n):
     if kind == "text": return ("hex", bytes(rng.choice(b"abcdefgh ") for _ in range(n)))
     return ("hex", bytes(rng.getrandbits(8) for _ in range(n)))
 
+def pattern(kind, seed, n):
+    """what 'W writepat' writes: n bytes of little-endian 32-bit words, word i = i + seed (cnt: compressible) or i * 0x9E3779B1 + seed (mix:
+    hardly compressible) - no two stretches of a chunk are alike, whatever their distance"""
+    import array, sys
+    m = (n + 3) // 4
+    a = array.array("I", ((i + seed) & 0xffffffff for i in range(m))) if kind == "cnt" else array.array("I", ((i * 0x9E3779B1 + seed) & 0xffffffff for i in range(m)))
+    if a.itemsize != 4: raise RuntimeError("array('I') is not 32 bits wide here")
+    if sys.byteorder != "little": a.byteswap()
+    return a.tobytes()[:n]
+
+def op_bytes(o):
+    if o[1] == "rep": return bytes([o[2]]) * o[3]
+    if o[1] == "pat": return pattern(o[2], o[3], o[4])
+    return o[2]
+def op_len(o): return o[3] if o[1] == "rep" else o[4] if o[1] == "pat" else len(o[2])
+
 def gen_scenarios(tier, rng):
     scs = []
     sizes = [0, 1, 100, 2048, 5000, 70000]
@@ -28,6 +44,11 @@ def gen_scenarios(tier, rng):
     # one very large chunk (the compressors' scratch space must not depend on the chunk size)
     big = [9 * 2 ** 20] if tier == "quick" else [9 * 2 ** 20, 33 * 2 ** 20]
     for b in big: scs.append({"ops": [("w", "rep", 0x41, b), ("rot",), ("w", "hex", b"x")], "destroy": True})
+    # ... and very large chunks no two stretches of which are alike (a constant chunk reads the same wherever a compressor picks it up again):
+    # tens of MiB in one write call, sizes around the powers of two an implementation might slice its input by
+    pats = [("cnt", 20 * 2 ** 20 + 7)] if tier == "quick" else [("cnt", 20 * 2 ** 20 + 7), ("mix", 17 * 2 ** 20 + 1), ("cnt", 33 * 2 ** 20 + 3), ("mix", 2 ** 20 + 5), ("cnt", 4 * 2 ** 20 + 1)]
+    for kind, b in pats:
+        scs.append({"ops": [("w", "hex", b"head-of-the-output"), ("w", "pat", kind, rng.randrange(2 ** 32), b), ("rot",), ("w", "pat", "mix", 5, 70001)], "destroy": True})
     return scs
 
 def script_for(sc, kind, comp):
@@ -37,6 +58,7 @@ def script_for(sc, kind, comp):
         if o[0] == "rot": nid += 1; ls.append("W rot %d" % nid)
         elif o[0] == "rots": ls.append("W rot %d" % nid)          # onto the very name that is being produced
         elif o[1] == "rep": ls.append("W writerep %02x %d" % (o[2], o[3]))
+        elif o[1] == "pat": ls.append("W writepat %s %d %d" % (o[2], o[3], o[4]))
         else: ls.append("W write %s" % (o[2].hex() or "-"))
     if sc["destroy"]: ls.append("W end")
     ls.append("TRACE")
@@ -47,8 +69,7 @@ def expected_outputs(sc):
     for o in sc["ops"]:
         if o[0] == "rots": raise ValueError("same-name rotations are named by expected_by_name")
         if o[0] == "rot": outs.append(cur); cur = b""
-        elif o[1] == "rep": cur += bytes([o[2]]) * o[3]
-        else: cur += o[2]
+        else: cur += op_bytes(o)
     if sc["destroy"]: outs.append(cur)
     return outs
 
@@ -59,8 +80,7 @@ def expected_by_name(sc, ext):
         if o[0] in ("rot", "rots"):
             res.setdefault("out%d%s" % (nid, ext), []).append(cur); cur = b""
             if o[0] == "rot": nid += 1
-        elif o[1] == "rep": cur += bytes([o[2]]) * o[3]
-        else: cur += o[2]
+        else: cur += op_bytes(o)
     if sc["destroy"]: res.setdefault("out%d%s" % (nid, ext), []).append(cur)
     return res
 
@@ -86,7 +106,7 @@ def run(ctx):
         ls = script_for(sc, kind, comp)
         il, files, rc = common.run_w(drvw, ls, timeout=600)
         pl, pfiles, prc = common.run_w(drvw, script_for(sc, kind, "none"), timeout=600)
-        small = sum((o[3] if o[1] == "rep" else len(o[2])) for o in sc["ops"] if o[0] == "w") < 3000000
+        small = sum(op_len(o) for o in sc["ops"] if o[0] == "w") < 3000000
         ml = common.run_model_lines(mdl, ls) if small else None
         return job, ls, il, files, rc, pfiles, ml
     diffs, fails, cases = [], [], []
@@ -98,7 +118,7 @@ def run(ctx):
             why = None
             ext = ".gz" if comp == "gzip" else ".xz"
             exp = expected_outputs(sc)
-            if rc != 0: why = "the writer crashed (exit status %d) - %s" % (rc, "a chunk of %d bytes" % max((o[3] if o[1] == "rep" else len(o[2])) for o in sc["ops"] if o[0] == "w"))
+            if rc != 0: why = "the writer crashed (exit status %d) - %s" % (rc, "a chunk of %d bytes" % max(op_len(o) for o in sc["ops"] if o[0] == "w"))
             else:
                 for k, data in enumerate(exp):
                     fn = ("out%d%s" % (k + 1, ext)) if kind == "name" else "fd%d" % (k + 1)
@@ -120,7 +140,8 @@ def run(ctx):
     cases += xcases; diffs += xdiffs; fails += xfails
     rep.cov.update(xstats)
     common.summarize_cov(rep, cases,
-        "byte sequences (zeros, text, random; chunks of 0 B .. 200 KB; one 9 MiB chunk, 33 MiB in the thorough tier) x chunkings x rotation "
+        "byte sequences (zeros, text, random; chunks of 0 B .. 200 KB; one constant 9 MiB chunk, 33 MiB in the thorough tier; one 20 MiB chunk no two "
+        "stretches of which are alike, in the thorough tier five of 1 .. 33 MiB, compressible and not) x chunkings x rotation "
         "patterns (incl. consecutive rotations, empty outputs, rotation with much compressed data pending) x {gzip, xz} x {named, descriptor} "
         "through the real writers; each closed output must be exactly one complete stream (Python zlib / lzma, no trailing bytes, .gz/.xz suffix) "
         "decompressing to what the uncompressed writer produced for the same calls; the event skeleton (open/write/close/rename order) is "
